@@ -241,6 +241,56 @@ impl<T: Qcow2IoOps> Qcow2Dev<T> {
         f_write.await
     }
 
+    /// Zero one new metadata cluster and clear its `new` mark, unless
+    /// someone else has done or is doing that, so that slices of this
+    /// cluster can be written in place from now on
+    async fn settle_new_meta_cluster(&self, host_off: u64) -> Qcow2Result<()> {
+        let info = &self.info;
+        let key = host_off >> info.cluster_bits();
+
+        let locked_cls = {
+            let cls_map = self.new_cluster.read().await;
+
+            match cls_map.get(&key) {
+                Some(cluster) => {
+                    // wait for in-progress zeroing, which holds this lock
+                    // until the cluster is removed from the map
+                    let mut locked_cls = cluster.write().await;
+
+                    if !(*locked_cls) {
+                        *locked_cls = true;
+                        Some(locked_cls)
+                    } else {
+                        None
+                    }
+                }
+                None => None,
+            }
+        };
+
+        if let Some(mut locked_cls) = locked_cls {
+            if let Err(e) = self
+                .call_fallocate(
+                    info.cluster_round_down(host_off),
+                    info.cluster_size(),
+                    Qcow2OpsFlags::FALLOCATE_ZERO_RANGE,
+                )
+                .await
+            {
+                // not zeroed, let the next user retry
+                *locked_cls = false;
+                return Err(e);
+            }
+
+            // waiters on this lock may hold the map's read lock, so release
+            // it before taking the map's write lock
+            drop(locked_cls);
+            self.clear_new_cluster(key).await;
+        }
+
+        Ok(())
+    }
+
     async fn do_write_cow(&self, off: u64, mapping: &Mapping, buf: &[u8]) -> Qcow2Result<()> {
         let info = &self.info;
         let split = SplitGuestOffset(off);
@@ -308,6 +358,13 @@ impl<T: Qcow2IoOps> Qcow2Dev<T> {
                 // flush refcount change, which is often small
                 // change
                 self.flush_refcount().await?;
+
+                // the cluster holding this slice may still be new: zero it
+                // now, exactly once, so that neither a later cache flush
+                // wipes the slice written below nor a reload after eviction
+                // rebuilds it as empty
+                self.settle_new_meta_cluster(l2_table.get_offset().unwrap())
+                    .await?;
 
                 // flush mapping table in-place update
                 self.flush_table(&*l2_table, 0, l2_table.byte_size())
